@@ -83,6 +83,7 @@ type vfIdPReply struct {
 	Status      int
 	ContentType string
 	Body        []byte
+	Raw         []byte        // written verbatim on the hijacked connection, which is then closed (hostile framing)
 	Reset       bool          // close the connection without a response
 	Stall       time.Duration // wait before answering (or before resetting)
 }
@@ -273,6 +274,16 @@ func (i *vfIdP) scripted(w http.ResponseWriter, r *http.Request, ev *vfIdPEvent,
 		case <-time.After(rep.Stall):
 		case <-r.Context().Done():
 		}
+	}
+	if rep.Raw != nil {
+		i.evSet(ev, func() { ev.Status = -2; ev.Note = "raw" })
+		if hj, ok := w.(http.Hijacker); ok {
+			if c, _, err := hj.Hijack(); err == nil {
+				_, _ = c.Write(rep.Raw)
+				_ = c.Close()
+			}
+		}
+		return
 	}
 	if rep.Reset {
 		i.evSet(ev, func() { ev.Status = -1 })
